@@ -105,6 +105,10 @@ var nameForms = []func(i int, r *rand.Rand) string{
 }
 
 func genSal(r *rand.Rand, wide bool) int64 {
+	if wide && r.Intn(12) == 0 {
+		// time-stamp-like saliences: far above 2^53 and closer together than float64 can tell apart
+		return 1700000000000000000 + int64(r.Intn(5))
+	}
 	if wide && r.Intn(6) == 0 {
 		switch r.Intn(6) {
 		case 0:
